@@ -78,6 +78,13 @@ impl<D> Collected<D> {
 }
 
 pub trait BodyExt: Body {
+    /// "Returns a future that resolves to the next `Frame`, if any." (de-asynced: the value it resolves to)
+    fn frame(&mut self) -> Option<Result<Frame<Self::Data>, Self::Error>>
+    where
+        Self: Unpin,
+    {
+        self.next_frame()
+    }
     fn collect(mut self) -> Result<Collected<Self::Data>, Self::Error>
     where
         Self: Sized,
